@@ -33,6 +33,10 @@ def check(run):
     unknown(run, p)
     entry(run, p)
     preset(run, p)
+    from .common import nocache_rule
+    nocache_rule(run, 'C09-NOCACHE', p, ['tdda.constraints.base'],
+                 'a .tdda file is read each time it is loaded: no memoising decorator, no class-level container and no module-level '
+                 'table filled in by a function in the constraints module (a rewritten file must take effect, whatever its timestamp)')
     from .common import keyorder_rule
     n = keyorder_rule(run, 'C09-KEYORDER', p, [f for f in p.funcs.values() if f.rel == 'tdda/constraints/base.py'],
                       'loading does not depend on the order of keys in the JSON objects (the format says it is immaterial): no loop '
